@@ -94,15 +94,32 @@ func (w *World) FaultStep(kind string) int {
 	return -1
 }
 
-// onlyFaults is a DevOK filter admitting only fault actors and the clock as deviations.
-func onlyFaults(name string, depth int) bool {
+func isFaultName(name string) bool {
 	return len(name) > 6 && name[:6] == "fault:" || name == "clock"
 }
 
+// onlyFaults is a DevOK filter admitting only fault actors and the clock as deviations.
+func onlyFaults(name string, prev []string) bool { return isFaultName(name) }
+
 // faultThenAny admits only fault/clock deviations first and anything afterwards.
-func faultThenAny(name string, depth int) bool {
-	if depth == 0 {
-		return onlyFaults(name, depth)
+func faultThenAny(name string, prev []string) bool {
+	if len(prev) == 0 {
+		return isFaultName(name)
+	}
+	return true
+}
+
+// oneFaultAnyOrder admits paths with exactly one fault/clock deviation among the first two
+// deviations, in either order (a schedule deviation before the cause strikes, or after).
+func oneFaultAnyOrder(name string, prev []string) bool {
+	nf := 0
+	for _, p := range prev {
+		if isFaultName(p) {
+			nf++
+		}
+	}
+	if isFaultName(name) {
+		return nf == 0
 	}
 	return true
 }
